@@ -40,6 +40,13 @@ def run(ctx: Ctx) -> None:
             if pos is None and canon(val) == f"np.isnan({CV})":
                 nan_name = name
     if nan_name is None:
+        # the mask is whatever name indexes the substitution / restore stores `CV[<name>] = ...`: its definition must be the NaN test
+        idx = [st.targets[0].slice.id for st in ast.walk(fn) if isinstance(st, ast.Assign) and isinstance(st.targets[0], ast.Subscript) and canon(st.targets[0].value) == CV and isinstance(st.targets[0].slice, ast.Name)]
+        cands = [(name, st, val) for name in dict.fromkeys(idx) for st, val, pos in defs.all_defs(name) if pos is None]
+        if cands:
+            name, st, val = cands[0]
+            ctx.ob("C03.SUBST", D, st, f"{name} = {canon(val)}", False, expected=f"np.isnan({CV})", detail="the cells substituted by +/-inf for the search and restored to NaN afterwards must be exactly the NaN (non-computable) costs: any other mask (e.g. ~np.isfinite) rewrites genuine cost values of the volume and changes which pixels count as having no computable cost")
+            return
         raise AnalysisError("to_disp: `indices_nan = np.isnan(cv['cost_volume'].data)` not found")
     nd = defs.all_defs(nan_name)
     ctx.ob("C03.SUBST", D, nd[0][0], f"{nan_name} = np.isnan({CV}), assigned once", len(nd) == 1, detail="the set of non-computable costs is re-bound: substitution and restore may act on different cells")
@@ -194,6 +201,7 @@ SPEC = PropSpec(
 )
 
 MUTANTS = [
+    {"id": "mask-not-isfinite", "file": D, "old": '        indices_nan = np.isnan(cv["cost_volume"].data)\n\n        # Winner Takes All strategy', "new": '        indices_nan = ~np.isfinite(cv["cost_volume"].data)\n\n        # Winner Takes All strategy'},
     {"id": "swap-inf-signs", "edits": [(D, '            cv["cost_volume"].data[indices_nan] = -np.inf\n            disp = self.argmax_split(cv)', '            cv["cost_volume"].data[indices_nan] = np.inf\n            disp = self.argmax_split(cv)')]},
     {"id": "delete-restore", "file": D, "old": '            disp = self.argmin_split(cv)\n\n        cv["cost_volume"].data[indices_nan] = np.nan\n', "new": '            disp = self.argmin_split(cv)\n\n'},
     {"id": "restore-only-min", "file": D, "old": '            disp = self.argmin_split(cv)\n\n        cv["cost_volume"].data[indices_nan] = np.nan\n', "new": '            disp = self.argmin_split(cv)\n            cv["cost_volume"].data[indices_nan] = np.nan\n\n'},
